@@ -18,7 +18,8 @@ RULE = ("each run: 2-4 generated messages (70% with encrypted parameter areas of
         "non-trivial = repeated decodes of the same arguments were compared with == (events, objects, declared type "
         "identity) across other decodes in between; 0-3 bystanders per run ask for parameter encryption on arbitrary "
         "commands; 4% of the runs re-decode one of 6 long-lived probe messages first decoded when the worker process "
-        "started (hundreds of runs earlier) and compare with the result kept since then; distinct = distinct "
+        "started (hundreds of runs earlier) and compare with the result kept since then; 1.5% decode the same arguments in "
+        "a fresh interpreter that has decoded nothing else and compare the comparable forms; distinct = distinct "
         "(message set, schedule) digests")
 REAL = common.REAL_DECODER + ["tpmstream.spec.commands.params_common (cached type synthesis)", "tpmstream.common.object"]
 ASSUMPTIONS = ["all tasks live in one interpreter: module globals are shared simply because they are; generators are the pre-emption points"]
@@ -107,11 +108,12 @@ def make_case(i, rng, tier):
     # type synthesis, which is what a bounded / keyed cache needs in order to forget something
     tasks += common.enc_sweep_specs(rng, g, rng.choice((0, 1, 1, 2, 3)))
     probe = rng.randrange(N_PROBES) if rng.random() < 0.04 else None
+    pristine = rng.random() < 0.015
     policy = {"ABA": "sequential", "AA": "sequential", "ABCA": "sequential"}.get(hist) if rng.random() < 0.5 else None
     specs, sched = common.perturb(rng, tasks, p_by=0.4)
     if policy == "sequential":
         sched = {"policy": "sequential", "order": [t["id"] for t in specs]}
-    return {"input": {"label": "%s:%s" % (hist, "+".join(m["label"] for m in msgs)), "n": n, "history": hist, "probe": probe},
+    return {"input": {"label": "%s:%s" % (hist, "+".join(m["label"] for m in msgs)), "n": n, "history": hist, "probe": probe, "pristine": pristine},
             "tasks": specs, "schedule": sched}
 
 
@@ -264,6 +266,22 @@ def check(case):
                           "%s: %s decoded alone != its slice of the stream decode%s" % (label, m["kind"], " (declared type objects differ)" if same else ""))
                     break
                 compared += 1
+    if case["input"].get("pristine"):
+        # the same arguments decoded by an interpreter that has decoded nothing else
+        from .. import pristine
+        firsts = [next(t for t in dec if t["id"] == ids[0]) for g, ids in sorted(groups.items())]
+        firsts = [t for t in firsts if not w.tasks[t["id"]].cancelled]
+        fresh = pristine.run_fresh(firsts)
+        res.count("compared-with-fresh-interpreter", len(firsts))
+        for spec_, fr in zip(firsts, fresh):
+            t = w.tasks[spec_["id"]]
+            mine = pristine.summarise(t)
+            if mine != fr:
+                what = "outcome" if mine[1] != fr[1] else "events"
+                res.v("C12.f", "C12.f:differs-from-fresh-process:%s" % what,
+                      "%s: task %s gives %s here, but %s in an interpreter that has decoded nothing before: %s" % (
+                          label, t.id, mine[1], fr[1], common.show_diff(mine[0], fr[0])))
+                break
     if case["input"].get("probe") is not None:
         check_probe(res, case["input"]["probe"], label)
     else:
